@@ -535,6 +535,10 @@ func c18CheckAttr(a bgp.PathAttributeInterface, idsZero bool, st *verifkit.Stats
 		if !bytes.Equal(wire[i], b2) {
 			return verifkit.Failf("wire-mismatch", "%T: native wire %x, after native->API->native %x (options %s, api %v)", a, wire[i], b2, verifgen.OptString(o), m)
 		}
+		// a route added through the API is packed into UPDATEs with the length its attributes report
+		if n := a2.Len(o); n != len(b2) {
+			return verifkit.Failf("converted-length", "%T: after native->API->native the attribute reports %d octets and serialises to %d (options %s, api %v)", a, n, len(b2), verifgen.OptString(o), m)
+		}
 	}
 	m2, f := c18MarshalAttr(a2)
 	if f != nil {
